@@ -1,6 +1,145 @@
 import TantivyModel.Driver.Proto
+import TantivyModel.Model.Columnar.Column
+/-!
+Line protocol of the C08 model (fast fields / columnar).
+
+  pack <w> <vals>                    -> hex of BitPacker output
+  unpack <w> <hex> <idxs>            -> values BitUnpacker::get returns at idxs (`bad-width` if refused)
+  numbits <n>                        -> compute_num_bits
+  stats <vals>                       -> `min max gcd rows`
+  encode <codec> <vals>              -> hex of the column values (codec byte included) | none
+  decode <hex> <idxs|all>            -> `codec min max gcd rows;v,v,..` | corrupt
+  optenc <numRows> <rows>            -> hex of serialize_optional_index
+  optidx <hex> <docs> <ranks>        -> `numDocs numNonNull;rank..;rankIfExists..;select..` (x = none)
+  i64_to_u64 / u64_to_i64 / f64_to_u64 / u64_to_f64 <bits>
+  roundtrip <card|auto> <rows>       -> rows read back from encodeAs (rows: `1,2|-|3`)
+  shuffle <order> <inputs>           -> rows of read(mergeShuffled); order `seg:row,seg:row`,
+                                        inputs separated by `/`, each `~n` (missing, n docs) or rows
+  stack <inputs>                     -> rows of read(mergeStacked)
+  inrange <lo> <hi> <rows>           -> docsInRange
+-/
 namespace TantivyModel.Driver.C08
-/-- stub: the model for C08 is not built yet -/
+open TantivyModel TantivyModel.Proto TantivyModel.Columnar
+
+def toNats (bs : List UInt8) : List Nat := bs.map (·.toNat)
+def ofNats (bs : List Nat) : List UInt8 := bs.map (fun b => UInt8.ofNat (b % 256))
+
+def bytesArg (h : String) : Option (List Nat) := (bytesOfHex h).map toNats
+
+def showOpt : Option Nat → String
+  | some n => toString n
+  | none => "x"
+
+def showOptList (l : List (Option Nat)) : String :=
+  if l.isEmpty then "-" else ",".intercalate (l.map showOpt)
+
+def parseRows (s : String) : Option (List (List Nat)) :=
+  if s == "." then some [] else (s.splitOn "|").mapM natList
+
+def showRows (rows : List (List Nat)) : String :=
+  if rows.isEmpty then "." else "|".intercalate (rows.map showNatList)
+
+def parseOrder (s : String) : Option (List (Nat × Nat)) :=
+  if s == "-" then some [] else
+  (s.splitOn ",").mapM (fun t =>
+    match t.splitOn ":" with
+    | [a, b] => do some ((← a.toNat?), (← b.toNat?))
+    | _ => none)
+
+def parseInput (s : String) : Option (MergeInput Nat) :=
+  if s.startsWith "~" then do
+    let n ← (s.drop 1).toNat?
+    some { numDocs := n, col := none }
+  else do
+    let rows ← parseRows s
+    some { numDocs := rows.length, col := some (encodeAs (detectCard rows) rows) }
+
+def parseInputs (s : String) : Option (List (MergeInput Nat)) :=
+  if s == "-" then some [] else (s.splitOn "/").mapM parseInput
+
+def parseCard : String → Option (Option Card)
+  | "auto" => some none
+  | "full" => some (some .full)
+  | "optional" => some (some .optional)
+  | "multivalued" => some (some .multivalued)
+  | _ => none
+
+def bv (n : Nat) : BitVec 64 := BitVec.ofNat 64 n
+
 def handle : List String → String
+  | ["pack", w, vals] =>
+    match w.toNat?, natList vals with
+    | some w, some vs => if w ≤ 64 then hexOfBytes (ofNats (pack w vs)) else "bad-op"
+    | _, _ => "bad-op"
+  | ["unpack", w, h, idxs] =>
+    match w.toNat?, bytesArg h, natList idxs with
+    | some w, some data, some is =>
+      if unpackerWidthOk w then showNatList (is.map (fun i => unpackGet w i data)) else "bad-width"
+    | _, _, _ => "bad-op"
+  | ["numbits", n] =>
+    match n.toNat? with
+    | some n => toString (computeNumBits n)
+    | none => "bad-op"
+  | ["stats", vals] =>
+    match natList vals with
+    | some vs => let s := collectStats vs; s!"{s.min} {s.max} {s.gcd} {s.numRows}"
+    | none => "bad-op"
+  | ["encode", c, vals] =>
+    match c.toNat?, natList vals with
+    | some c, some vs =>
+      match encodeU64Column c vs with
+      | some b => hexOfBytes (ofNats b)
+      | none => "none"
+    | _, _ => "bad-op"
+  | ["decode", h, idxs] =>
+    match bytesArg h with
+    | some bytes =>
+      match openU64Column bytes with
+      | some r =>
+        let idxs := if idxs == "all" then some (List.range r.stats.numRows) else natList idxs
+        match idxs with
+        | some is =>
+          if is.all (fun i => decide (i < r.stats.numRows)) then
+            s!"{r.codec} {r.stats.min} {r.stats.max} {r.stats.gcd} {r.stats.numRows};{showNatList (is.map r.get)}"
+          else "bad-op"
+        | none => "bad-op"
+      | none => "corrupt"
+    | none => "bad-op"
+  | ["optenc", n, rows] =>
+    match n.toNat?, natList rows with
+    | some n, some rs => hexOfBytes (ofNats (optEnc rs n))
+    | _, _ => "bad-op"
+  | ["optidx", h, docs, ranks] =>
+    match bytesArg h, natList docs, natList ranks with
+    | some bytes, some ds, some rs =>
+      match optOpen bytes with
+      | some o =>
+        s!"{o.numDocs} {o.numNonNull};{showOptList (ds.map o.rank)};{showOptList (ds.map o.rankIfExists)};{showOptList (rs.map o.select)}"
+      | none => "corrupt"
+    | _, _, _ => "bad-op"
+  | ["i64_to_u64", x] => match x.toNat? with | some x => toString (Gen.i64_to_u64 (bv x)).toNat | none => "bad-op"
+  | ["u64_to_i64", x] => match x.toNat? with | some x => toString (Gen.u64_to_i64 (bv x)).toNat | none => "bad-op"
+  | ["f64_to_u64", x] => match x.toNat? with | some x => toString (Gen.f64_to_u64 (bv x)).toNat | none => "bad-op"
+  | ["u64_to_f64", x] => match x.toNat? with | some x => toString (Gen.u64_to_f64 (bv x)).toNat | none => "bad-op"
+  | ["roundtrip", c, rows] =>
+    match parseCard c, parseRows rows with
+    | some c, some rows =>
+      let card := c.getD (detectCard rows)
+      let e := encodeAs card rows
+      showRows (read e.1 e.2)
+    | _, _ => "bad-op"
+  | ["shuffle", order, inputs] =>
+    match parseOrder order, parseInputs inputs with
+    | some o, some ins => let m := mergeShuffled o ins; showRows (read m.1 m.2)
+    | _, _ => "bad-op"
+  | ["stack", inputs] =>
+    match parseInputs inputs with
+    | some ins => let m := mergeStacked ins; showRows (read m.1 m.2)
+    | none => "bad-op"
+  | ["inrange", lo, hi, rows] =>
+    match lo.toNat?, hi.toNat?, parseRows rows with
+    | some lo, some hi, some rows => showNatList (docsInRange id rows lo hi)
+    | _, _, _ => "bad-op"
   | _ => "bad-op"
+
 end TantivyModel.Driver.C08
